@@ -1,24 +1,27 @@
 import VaxisModel.Props.C15
+import VaxisModel.Lemmas.VxfwPrefix
 
-/-! F115b: a FocusOut handler that answers with a focus command. Focus 0, command `focus 1`,
-widget 0 answers its first FocusOut with `focus 2`: widget 0 gets FocusOut twice, widget 2 gets
-a FocusIn and never a FocusOut, the focus ends on 1. -/
+/-! F115b (fixed in /repo by 4c7e445): before the fix a FocusOut handler answering with a focus
+command re-entered `focusWidget` while `focused` was still the old widget. Focus 0, command
+`focus 1`, widget 0 answers its first FocusOut with `focus 2`: widget 0 got FocusOut twice,
+widget 2 a FocusIn and never a FocusOut, the focus ended on 1. The current code sends both
+notifications before either command: FocusOut 0, FocusIn 1, FocusOut 1, FocusIn 2. -/
 namespace VaxisModel.Witness.F115b
 open VaxisModel.Model.Vxfw VaxisModel.Spec.Routing VaxisModel.Lemmas.Vxfw VaxisModel.Props.C15
+open VaxisModel.Lemmas
 
 def o : Oracle := ⟨fun _ ev _ k => if ev = .focusOut ∧ k = 0 then .focus 2 else .nil, fun _ => false⟩
 
-theorem observed : (handleCommand o 4 (St.init 0) (.focus 1)).trace =
+theorem prefix_observed : (VxfwPrefix.handleCommand o 4 (St.init 0) (.focus 1)).trace =
     [.call 0 .focusOut .target, .call 0 .focusOut .target, .eff (.focusSet 2), .call 2 .focusIn .target,
      .eff (.focusSet 1), .call 1 .focusIn .target] := by decide
 
-theorem focus_change_once_fails : ¬ focus_change_once_full := by
-  intro h
-  obtain ⟨t, ht, hp⟩ := h o 4 (St.init 0) (.focus 1)
-  rw [observed] at ht
-  have e : t = _ := (List.append_cancel_left (as := []) ht).symm
-  subst e
-  revert hp
-  decide
+theorem prefix_focus_change_once_fails :
+    focusRun 0 false (VxfwPrefix.handleCommand o 4 (St.init 0) (.focus 1)).trace = none := by decide
+
+theorem fixed_observed : (handleCommand o 4 (St.init 0) (.focus 1)).trace =
+    [.call 0 .focusOut .target, .eff (.focusSet 1), .call 1 .focusIn .target,
+     .call 1 .focusOut .target, .eff (.focusSet 2), .call 2 .focusIn .target] ∧
+    focusRun 0 false (handleCommand o 4 (St.init 0) (.focus 1)).trace = some 2 := by decide
 
 end VaxisModel.Witness.F115b
